@@ -39,11 +39,14 @@ pub enum Wrap {
     Deque,
     BTree,
     Hash,
+    PinBox,
+    PinRc,
+    Cow,
 }
 
 impl Wrap {
     fn shared(self) -> bool {
-        matches!(self, Wrap::Rc | Wrap::Arc)
+        matches!(self, Wrap::Rc | Wrap::Arc | Wrap::PinRc | Wrap::Cow)
     }
 }
 
@@ -79,7 +82,7 @@ impl Shape {
 
     /// only unique owners between the barriered object and the storage, sanctioned start
     pub fn must_be_accepted(&self) -> bool {
-        self.start == Start::Legit && !self.wraps.iter().any(|w| w.shared())
+        self.start == Start::Legit && !self.wraps.iter().any(|w| w.shared() || matches!(w, Wrap::PinBox))
     }
 
     fn cell_ty(&self) -> &'static str {
@@ -113,6 +116,9 @@ impl Shape {
                 Wrap::Deque => format!("VecDeque<{t}>"),
                 Wrap::BTree => format!("BTreeMap<u8, {t}>"),
                 Wrap::Hash => format!("HashMap<u8, {t}>"),
+                Wrap::PinBox => format!("std::pin::Pin<Box<{t}>>"),
+                Wrap::PinRc => format!("std::pin::Pin<Rc<{t}>>"),
+                Wrap::Cow => format!("std::borrow::Cow<'gc, {t}>"),
             };
         }
         t
@@ -133,6 +139,9 @@ impl Shape {
                 Wrap::Deque => format!("VecDeque::from(vec![{e}])"),
                 Wrap::BTree => format!("BTreeMap::from([(0u8, {e})])"),
                 Wrap::Hash => format!("HashMap::from([(0u8, {e})])"),
+                Wrap::PinBox => format!("Box::pin({e})"),
+                Wrap::PinRc => format!("Rc::pin({e})"),
+                Wrap::Cow => format!("std::borrow::Cow::Owned({e})"),
             };
         }
         e
@@ -143,7 +152,7 @@ impl Shape {
         let mut e = "wf".to_string();
         for w in self.wraps.iter().skip(from) {
             e = match w {
-                Wrap::Box | Wrap::Rc | Wrap::Arc => format!("{e}.as_deref()"),
+                Wrap::Box | Wrap::Rc | Wrap::Arc | Wrap::PinBox | Wrap::PinRc | Wrap::Cow => format!("{e}.as_deref()"),
                 Wrap::Vec | Wrap::Arr | Wrap::Deque => format!("(&{e}[0])"),
                 Wrap::Opt => format!("{e}.as_write().unwrap()"),
                 Wrap::Res => format!("{e}.as_write().ok().unwrap()"),
@@ -159,7 +168,7 @@ impl Shape {
         let mut e = base.to_string();
         for w in &self.wraps {
             e = match w {
-                Wrap::Box | Wrap::Rc | Wrap::Arc => format!("(*{e})"),
+                Wrap::Box | Wrap::Rc | Wrap::Arc | Wrap::PinBox | Wrap::PinRc | Wrap::Cow => format!("(*{e})"),
                 Wrap::Vec | Wrap::Arr | Wrap::Deque => format!("{e}[0]"),
                 Wrap::Opt => format!("(*{e}.as_ref().unwrap())"),
                 Wrap::Res => format!("(*{e}.as_ref().ok().unwrap())"),
@@ -273,6 +282,9 @@ pub fn shape_strategy() -> BoxedStrategy<Shape> {
         1 => Just(Wrap::Deque),
         1 => Just(Wrap::BTree),
         1 => Just(Wrap::Hash),
+        1 => Just(Wrap::PinBox),
+        1 => Just(Wrap::PinRc),
+        1 => Just(Wrap::Cow),
     ];
     let start = prop_oneof![
         4 => Just(Start::Legit),
@@ -328,6 +340,36 @@ fn main() {{
         (
             "plain RefCell field in a derived type".into(),
             body("#[derive(Collect)]\n#[collect(no_drop)]\nstruct Root<'gc> { c: RefCell<Option<C<'gc>>> }", "Root { c: RefCell::new(None) }", "*root.c.borrow_mut() = Some(child);", "root.c.borrow().is_some()"),
+        ),
+        (
+            "plain OnceCell field in a derived type".into(),
+            body("#[derive(Collect)]\n#[collect(no_drop)]\nstruct Root<'gc> { c: std::cell::OnceCell<C<'gc>> }", "Root { c: std::cell::OnceCell::new() }", "let _ = root.c.set(child);", "root.c.get().is_some()"),
+        ),
+        (
+            "plain Mutex field in a derived type".into(),
+            body("#[derive(Collect)]\n#[collect(no_drop)]\nstruct Root<'gc> { c: std::sync::Mutex<Option<C<'gc>>> }", "Root { c: std::sync::Mutex::new(None) }", "*root.c.lock().unwrap() = Some(child);", "root.c.lock().unwrap().is_some()"),
+        ),
+        (
+            "plain RwLock field in a derived type".into(),
+            body("#[derive(Collect)]\n#[collect(no_drop)]\nstruct Root<'gc> { c: std::sync::RwLock<Option<C<'gc>>> }", "Root { c: std::sync::RwLock::new(None) }", "*root.c.write().unwrap() = Some(child);", "root.c.read().unwrap().is_some()"),
+        ),
+        (
+            "Gc<RefCell<..>> allocation".into(),
+            body(
+                "#[derive(Collect)]\n#[collect(no_drop)]\nstruct Root<'gc> { c: Gc<'gc, RefCell<Option<C<'gc>>>> }",
+                "Root { c: Gc::new(mc, RefCell::new(None)) }",
+                "*root.c.borrow_mut() = Some(child);",
+                "root.c.borrow().is_some()",
+            ),
+        ),
+        (
+            "RefLock::as_ptr write without unsafe".into(),
+            body(
+                "#[derive(Collect)]\n#[collect(no_drop)]\nstruct Root<'gc> { c: Gc<'gc, RefLock<Option<C<'gc>>>> }",
+                "Root { c: Gc::new(mc, RefLock::new(None)) }",
+                "*root.c.as_ptr() = Some(child);",
+                "root.c.borrow().is_some()",
+            ),
         ),
         (
             "Gc<Cell<..>> allocation".into(),
